@@ -58,6 +58,10 @@ def main() -> int:
         except TypeError:
             s = 'none'
         out['sto'].append('%s sat=%s' % (name, s))
+    import nunavut.lang.c as cmod
+    out['exact'] = None
+    if hasattr(cmod, '_is_exact_double'):
+        out['exact'] = ['1' if cmod._is_exact_double(int(x)) else '0' for x in req.get('exact', [])]
     json.dump(out, sys.stdout)
     return 0
 
